@@ -538,9 +538,9 @@ def process_config(args):
                     res["structural"] += w.n_struct
                     res["by_solver"] += w.n_lemmas
                     res["trivial"] -= w.n_lemmas
-                    if pr.by_solver or pr.failed:
+                    if pr.by_solver or pr.failed or c.nq:
                         res["solver_paths"] += 1
-                    if pr.by_solver or pr.failed or pr.by_simplify or pr.by_som or w.n_struct:
+                    if pr.by_solver or pr.failed or pr.by_simplify or pr.by_som or w.n_struct or c.trace:
                         res["nontrivial_paths"] += 1
                     if pr.sample and res["sample"] is None:
                         res["sample"] = dict(config=cfg["key"], obligation=pr.sample[0], negated_goal_unsat=pr.sample[1],
@@ -848,8 +848,9 @@ def report(mod, prop, tier, seed, results, wall, verbose=False):
             distinct_nontrivial=agg["nontrivial"],
             rule="one evaluation = one obligation decided on one (configuration, path); non-trivial = distinct (configuration, path) "
                  "pairs with at least one obligation relating symbolic terms (closed by structural identity of the two z3 terms, by z3's "
-                 "simplifier or by a solver query); paths whose obligations all needed only Python-level checks are not counted; "
-                 "solver_decided_paths counts the pairs that needed at least one solver query",
+                 "simplifier or by a solver query) or at least one solver-decided branch on the path; paths whose obligations all needed only "
+                 "Python-level checks and that took no symbolic decision are not counted; solver_decided_paths counts the pairs that needed at "
+                 "least one solver query (obligation or branch feasibility)",
             solver_decided_paths=agg["solver_paths"],
             obligations=agg["obligations"],
             discharged=agg["trivial"] + agg["by_simplify"] + agg["by_solver"],
